@@ -269,7 +269,8 @@ class _FreqH(Stub):
     __hash__ = None
 
     def _abs_isinstance(self, t):
-        return False
+        ts = t if isinstance(t, tuple) else (t,)
+        return any(isinstance(x, ClassRef) and x.name in ("Tick", "Hour", "DateOffset", "BaseOffset") for x in ts)
 
 
 class _TIdx(Idx):
@@ -338,6 +339,10 @@ class _MIdx(Idx):
 
 
 class _PD(PDRow):
+    from rules.tempcoverage_absint import _Offsets as _O, _TSeriesNS as _T
+    tseries = _T()
+    offsets = _O()
+
     @staticmethod
     def Timedelta(*a, **k):
         return Opaque("Timedelta")
